@@ -14,7 +14,8 @@
 (*                                                                         *)
 (*  Confluence   with test=Less, depth and colour writes on, the final     *)
 (*               planes are the per-pixel nearest fragments, whatever the  *)
-(*               history (C06, first sentence)                             *)
+(*               history (C06, first sentence); also under a fragment      *)
+(*               shader that discards at any subset of the pixels          *)
 (*  Painter      test off + back-to-front over disjoint depth ranges gives *)
 (*               the depth-buffered colours (C06, second sentence)         *)
 (*  Flags        masks, test-off, discard, culling, counters (C07)         *)
@@ -50,12 +51,13 @@ MkScene(cov, face, dp) ==
               ELSE <<-(CHOOSE x \in S : \A y \in S : x >= y), -(CHOOSE x \in S : \A y \in S : x <= y)>>],
    dpix |-> dp]
 
-ConflCtx == [cull |-> 0, sort |-> 0, test |-> 1, cw |-> 1, dw |-> 1, disc |-> 0, kind |-> "fb"]
+\* the shader discards at sc.dpix (all-zero dpix = an opaque shader)
+ConflCtx == [cull |-> 0, sort |-> 0, test |-> 1, cw |-> 1, dw |-> 1, disc |-> 1, kind |-> "fb"]
 S0 == [c |-> [p \in Pix |-> C0], z |-> [p \in Pix |-> Z0], st |-> <<0, 0, 0, 0, 0, 0, 0>>]
 
 Init ==
-  /\ \E cov \in [Tris -> [Pix -> {0, 1}]] :
-       sc = MkScene(cov, [t \in Tris |-> 0], [p \in Pix |-> 0])
+  /\ \E cov \in [Tris -> [Pix -> {0, 1}]], dp \in [Pix -> {0, 1}] :
+       sc = MkScene(cov, [t \in Tris |-> 0], dp)
   /\ s = S0
   /\ remaining = Tris
   /\ mode = "confluence"
@@ -75,7 +77,7 @@ Spec == Init /\ [][Next]_vars
 
 Confluence ==
   remaining = {} =>
-    \A p \in Pix : <<s.c[p], s.z[p]>> = Nearest(sc, C0, Z0, Tris, p)
+    \A p \in Pix : <<s.c[p], s.z[p]>> = NearestD(sc, ConflCtx, C0, Z0, Tris, p)
 
 CountersExact ==
   remaining = {} =>
